@@ -18,8 +18,9 @@ func init() {
 			"(R3) writer and reader layout tables agree: (field, byte index, shift) triples of GenCodeMarshal and GenCodeUnmarshal, the flag bytes, the section sequence of Base.MarshalRecord and Wrapper.MarshalRecord, the version constant written and accepted, and the 'no data for deleted records' predicate on writer and reader side (decision tables over Deleted in {<0, 0, >0}); " +
 			"(R5) varint.GetNextBlock, which extracts the meta block, bounds the decoded length in the unsigned domain with the prefix accounted for (same rule as C10-R4); (R4) the data-format identifier is written with the codec the reader uses (varint.Pack8 / Unpack8). " +
 			"(R6) every constant-bound index/slice in the repo functions statically reachable from the record parsers is dominated by a length test implying the bound. " +
+			"(R7) in every Record.Marshal implementation a deleted record yields no data before any other rejection can apply: each error exit other than the missing-meta one is reachable only past the Deleted test (sibling agreement Base/Wrapper; shared with C13-R7). " +
 			"NOT decided: round-trip equality for all records, totality of the third-party codecs.",
-		Rules: []ruleFn{c08R1, c08R2, c08R3, c08R4, func(c *Ctx, r *Report) { blockReaderRule(c, r, "C08-R5") }, c08R6},
+		Rules: []ruleFn{c08R1, c08R2, c08R3, c08R4, func(c *Ctx, r *Report) { blockReaderRule(c, r, "C08-R5") }, c08R6, func(c *Ctx, r *Report) { deletedFirstRule(c, r, "C08-R7") }},
 	})
 }
 
@@ -568,4 +569,52 @@ func c08R6(c *Ctx, r *Report) {
 	r.SetFloor(rule, 1)
 	boundsRule(c, r, rule, "parsing an arbitrary byte string as a stored record",
 		"database/record.NewRawWrapper", "database/record.NewWrapper", "database/record.Unwrap")
+}
+
+// deletedFirstRule: Marshal of a deleted record is (nil, nil), whatever else is wrong with it.
+func deletedFirstRule(c *Ctx, r *Report, rule string) {
+	r.SetFloor(rule, 2)
+	notDeleted := Guard{Name: "not(Meta().Deleted > 0)", Truthy: false, Match: func(b ssa.Value) bool {
+		bo, ok := b.(*ssa.BinOp)
+		if !ok || (bo.Op != token.GTR && bo.Op != token.NEQ) {
+			return false
+		}
+		v, isC := constInt(bo.Y)
+		return isC && v == 0 && fieldLoadOf(bo.X, "database/record.Meta", "Deleted")
+	}}
+	noMeta := Guard{Name: "Meta() == nil", Truthy: false, Match: func(b ssa.Value) bool {
+		_, ok := isCallTo(b, "database/record.Base.Meta")
+		return ok
+	}}
+	n := 0
+	for _, fn := range c.FuncsIn("database/record") {
+		if fn.Name() != "Marshal" || fn.Signature.Recv() == nil || fn.Blocks == nil {
+			continue
+		}
+		n++
+		k := 0
+		hasDeletedExit := false
+		eachInstr(fn, func(in ssa.Instruction) {
+			ret, ok := in.(*ssa.Return)
+			if !ok {
+				return
+			}
+			if isNilConst(retVal(ret, 0)) && isNilConst(retVal(ret, 1)) {
+				hasDeletedExit = true
+				return
+			}
+			if isNilConst(retVal(ret, 1)) {
+				return
+			}
+			k++
+			p := ReachTargetAvoiding(fn, ret, []Guard{notDeleted, noMeta}, nil)
+			r.Check(p == nil, rule, fmt.Sprintf("%s / error exit #%d only for records that are not deleted", fnKey(fn), k),
+				"reachable only past the Deleted test (or for a record without meta)",
+				"a deleted record can be rejected with an error before the Deleted test: it must marshal to no data (the API's del notification and the stored form rely on it)", append([]string{c.Pos(ret.Pos())}, c.pathString(p)...)...)
+		})
+		r.Check(hasDeletedExit, rule, fnKey(fn)+" / deleted records marshal to (nil, nil)", "has the no-data exit", "no (nil, nil) exit: deleted records are serialized with data")
+	}
+	if n < 2 {
+		r.Undecided(rule, "Record.Marshal implementations", fmt.Sprintf("found %d implementations, expected Base and Wrapper", n))
+	}
 }
